@@ -159,7 +159,8 @@ FAMILIES = ['index-run', 'index-run-zero', 'namelen-run', 'valuelen-run', 'updat
             'value-inner-blanks', 'value-inner-tabs', 'value-leading-blanks', 'value-tokens', 'value-inner-nuls', 'value-inner-digits',
             'value-inner-upper', 'value-crlf', 'value-colons', 'huffman-value-inner-blanks', 'name-value-inner-blanks', 'name-value-inner-upper',
             'text-value-inner-blanks', 'text-value-nonascii', 'text-value-tokens', 'text-plain-literals', 'text-indexed-fields', 'text-huffman-literals',
-            'text-name-value-inner-upper', 'distinct-plain-literals', 'distinct-values', 'distinct-inserted-literals', 'text-distinct-plain-literals', 'size-updates-padded', 'literals-padded-name-index', 'indexed-padded', 'string-lengths-padded']
+            'text-name-value-inner-upper', 'distinct-plain-literals', 'distinct-values', 'distinct-inserted-literals', 'text-distinct-plain-literals', 'bytearray-indexed-fields', 'bytearray-plain-literals', 'bytearray-distinct-plain-literals',
+            'debuglog-plain-literals', 'debuglog-distinct-plain-literals', 'debuglog-indexed-fields', 'size-updates-padded', 'literals-padded-name-index', 'indexed-padded', 'string-lengths-padded']
 TINY = ['declared-plain-value', 'declared-plain-name', 'declared-huffman-value', 'declared-huffman-name', 'declared-index', 'declared-table-size']
 
 
@@ -169,7 +170,14 @@ def main():
     kind = os.environ.get('HPACK_VERIF_BUF', 'bytes')
     import hpack
     from hpack.exceptions import HPACKDecodingError
-    setup, block, kw = family(name, n)
+    base = name
+    if base.startswith('bytearray-'):          # the block arrives in the application's (mutable) receive buffer
+        kind = 'bytearray'; base = base[10:]
+    if base.startswith('debuglog-'):           # the application runs with the library's logger at DEBUG, handler attached
+        import logging
+        lg = logging.getLogger('hpack'); lg.setLevel(logging.DEBUG); lg.addHandler(logging.StreamHandler(open(os.devnull, 'w')))
+        base = base[9:]
+    setup, block, kw = family(base, n)
     if kind == 'bytearray':
         block = bytearray(block)
 
